@@ -2,6 +2,7 @@
    are about.  Requests:
      ("encode" spec)            -> (ehdr-bytes (shdr-bytes ...) (phdr-bytes ...))   Spec encoders
      ("run" img spec queries)   -> (wf (model-answer ...) (spec-answer ...))
+     ("anchors")                -> (((machine code name) ...) ((machine code name) ...))   Spec/C01Machines.v sh_anchors, p_anchors
    spec    = (is64 le (ei_version ei_osabi ei_abiversion #pad e_type ... e_shstrndx)
               ((#name (sh_name ... sh_entsize)) ...) ((p_type p_flags p_offset ... p_align) ...) shstrndx)
    queries = ("header") ("num_sections") ("num_segments") ("shstrndx") ("sections") ("segments")
@@ -9,7 +10,7 @@
    Extracted with ExtrOcamlBasic only. *)
 From Coq Require Import String.
 From PV Require Import Base.Bytes Base.Outcome Base.Fmt Base.PyData.
-From PV Require Import Spec.C01Obs Spec.C01Image Model.C01ElfFile.
+From PV Require Import Spec.C01Obs Spec.C01Image Spec.C01Machines Model.C01ElfFile.
 Open Scope string_scope.
 Open Scope Z_scope.
 
@@ -121,6 +122,9 @@ Definition dispatch (req : sx) : sx :=
     SL [SB (encode_ehdr s);
         SL (map (fun x => SB (encode_shdr s (snd x))) (i_sections s));
         SL (map (fun p => SB (encode_phdr s p)) (i_segments s))]
+  else if is op "anchors" then
+    let pr (a : string * Z * string) := match a with (k, z, n) => SL [SS k; SI z; SS n] end in
+    SL [SL (map pr sh_anchors); SL (map pr p_anchors)]
   else if is op "run" then
     let img := gB (nthx 1 l) in
     let s := rd_spec (nthx 2 l) in
